@@ -38,6 +38,8 @@ theorem applyFn1_rowwise (f : Fr.Frame) (L : Nat) (h : Fr.WF f L) (fn : Fr.Val â
 -- `QF.Core.PExpr` and `QF.Core.LExpr` both declare `QF.PCol` - so no theorem of this property would see a change of it.)
 -- `setColumn` is regenerated in `Gen.projectAst` (C08ProjectGen, now in this property's list: gen_project_semantics, gen_project_persistent).
 -- FilteredApply, WithRowNums and the two built-in toUpper functions are regenerated in `Gen.fapplyAst` / `rowNumsFnAst` / `supperTable` / `eupperTable` (C06FApplyGen).
-theorem tie : Tie.sameAll ["qframe.QFrame.apply1", "qframe.QFrame.apply2"] = true := by decide
+-- `QFrame.apply1`, `QFrame.apply2` are regenerated statement by statement in `Gen.apply1GlueAst` / `Gen.apply2GlueAst` (sortgast.go): which column receives `Apply1` / `Apply2`,
+-- the index argument, the type switch, the destination of `setColumn` â€” `C03SortGlueGen.gen_sortglue_canon` + `gen_apply12_semantics`.
+theorem tie : Tie.sameAll [] = true := by decide
 
 end QF.Props.C06
